@@ -314,6 +314,7 @@ func cmdCheck(args []string) int {
 		if *tier == "thorough" {
 			opts.Tier = 1
 			opts.Solver3 = "cvc5"
+			opts.ConfirmEvery = 1
 		}
 		if hs.NoMerge {
 			opts.Merge = false
@@ -637,7 +638,9 @@ func writeEvidence(id, tier string, seed int64, spec CheckSpec, results []*harne
 		"discharged":              total.Discharged,
 		"concrete_assertions":     total.ConcreteAsserts,
 		"concrete_panic_checks":   total.ConcreteChecks,
+		"panic_checks_implied_syntactically": total.ImpliedChecks,
 		"feasibility_queries":     total.FeasQueries,
+		"deciding_batch_queries":  total.BatchQueries,
 		"confirm_queries":         total.ConfirmQueries,
 		"confirm_unknown":         total.ConfirmUnknown,
 		"solver_time_s":           solverTime,
